@@ -167,6 +167,9 @@ func (prop) Generate(r *prng.Rand, phase string) any {
 	var fields []refwkb.Field
 	for tries := 0; ; tries++ {
 		g := cfg.GenAny(r)
+		if phase == "edit" && tries == 0 && r.Chance(0.003) {
+			g = cfg.Big(r, 1+r.Intn(4))
+		}
 		if !s.Codec.EWKB {
 			g.S = 0
 		}
